@@ -278,7 +278,8 @@ Definition only_teardowns (pairs : list pair) : list (option tfun) :=
 Definition fixture_pairs (l : list fixture) : list pair := map (fun f => (Some (SFixture f), Some (TFixture f))) l.
 
 (* ---------------- task outputs ---------------- *)
-Inductive tkres := TkSuccess | TkFailure | TkDied.     (* Success / TaskFailure / the worker thread was killed *)
+Inductive tkres := TkSuccess | TkFailure | TkDied.     (* Success / TaskFailure / a BaseException escaped from user code:
+                                                          the rest of the task is not executed (TaskResultException) *)
 Record tout := mkTout {
   to_main : list atom;                         (* atoms of the worker thread *)
   to_children : list (owner * tpath * list atom);      (* atoms of user threads *)
@@ -463,5 +464,5 @@ Definition predicted_result (i : nat) (md : mode) (o : tout) : option tres :=
   | Skip r, _ => Some (ResSkipped r)
   | Run, TkSuccess => Some ResSuccess
   | Run, TkFailure => Some (ResFailure (RTaskFailed i))
-  | Run, TkDied => None
+  | Run, TkDied => Some ResException      (* run_task catches BaseException: the task completes with an exception result *)
   end.
